@@ -99,6 +99,36 @@ def gen_T02():
     for cmd, arg in (('register', 'name'), ('changename', 'newname')):
         body = ast.unparse(find_def(ut, cmd, 'User'))
         need('self._checkName(irc, %s)' % arg in body, 'User.%s no longer validates the name' % cmd)
+    # the commands that put the live account back when users.setUser refuses (repairs C04.F23 / C04.F24)
+    def usrc(cmd, inner=None):
+        node = ucls
+        if inner:
+            node = [n for n in ucls.body if isinstance(n, ast.ClassDef) and n.name == inner][0]
+        return ' '.join(ast.unparse([n for n in node.body if isinstance(n, ast.FunctionDef) and n.name == cmd][0]).split())
+    reg = [n for n in ucls.body if isinstance(n, ast.FunctionDef) and n.name == 'register'][0]
+    trys = [n for n in reg.body if isinstance(n, ast.Try)]
+    need(trys and ast.unparse(trys[-1].body).replace('\n', '; ') ==
+         'user.name = name; user.setPassword(password); if addHostmask:;     user.addHostmask(msg.prefix); ircdb.users.setUser(user)'
+         and len(trys[-1].handlers) == 1 and ast.unparse(trys[-1].handlers[0].type) == 'ValueError'
+         and [ast.unparse(x) for x in trys[-1].handlers[0].body] == ['ircdb.users.delUser(user.id)', 'raise'],
+         'User.register: expected try: name/setPassword/addHostmask/setUser except ValueError: delUser(user.id); raise')
+    newu = [i for i, n in enumerate(reg.body) if ast.unparse(n) == 'user = ircdb.users.newUser()']
+    need(len(newu) == 1 and reg.body.index(trys[-1]) == newu[0] + 1, 'User.register: newUser() must directly precede the guarded block')
+    cn = usrc('changename')
+    need('oldname = user.name' in cn and 'except ircdb.DuplicateHostmask: user.name = oldname' in cn,
+         'User.changename no longer restores the old name when setUser refuses')
+    need('auth = list(user.auth)' in usrc('identify') and 'except ValueError: user.auth = auth' in usrc('identify'),
+         'User.identify no longer restores user.auth')
+    need('except ircdb.DuplicateHostmask: user.auth = auth' in usrc('unidentify'), 'User.unidentify no longer restores user.auth')
+    rm = usrc('remove', 'hostmask')
+    need('hostmasks = ircutils.IrcSet(user.hostmasks)' in rm and 'except ircdb.DuplicateHostmask: user.hostmasks = hostmasks' in rm,
+         'User.hostmask.remove no longer restores the hostmask set')
+    ad = usrc('add', 'hostmask')
+    need('alreadyThere = hostmask in user.hostmasks' in ad and 'if not alreadyThere: user.removeHostmask(hostmask)' in ad,
+         'User.hostmask.add: rollback of the added mask changed')
+    for cmd, inner in (('password', 'set'), ('secure', 'set')):
+        need('DuplicateHostmask' not in usrc(cmd, inner) and 'except ValueError' not in usrc(cmd, inner),
+             'User.set.%s gained a setUser failure handler (model: no rollback)' % cmd)
     # Admin.capability.add: single-token test
     acls = find_class(tree('plugins/Admin/plugin.py'), 'Admin')
     cap = [n for n in acls.body if isinstance(n, ast.ClassDef) and n.name == 'capability'][0]
